@@ -4,20 +4,31 @@
 use crate::tracked::Cb;
 use std::fmt::Write;
 
-/// Integers are written in the *code* domain shared with the specification:
-/// small values are themselves, `usize::MAX - k` (k <= 1024) is `HUGE_TOP - k`, everything else
-/// that does not fit is `HUGE_MID` (TLC integers are 32 bit).
+/// Integers are written in the *code* domain shared with the specification (TLC integers are 32 bit):
 pub const HUGE_TOP: i64 = 1 << 30;
 pub const HUGE_MID: i64 = 1 << 29;
 pub const SMALL_LIMIT: i64 = 1 << 20;
 
+pub const HUGE_LOW: i64 = 1 << 28;
+
+/// code of a machine word: small values are themselves; values within 1024 of 2^32, 2^63 and
+/// usize::MAX keep their distance to that landmark; every other large value is "some huge number"
 pub fn enc(x: usize) -> i64 {
-    if (x as u128) < SMALL_LIMIT as u128 {
+    let x = x as u128;
+    let near = |c: u128| -> Option<i64> {
+        let d = x as i128 - c as i128;
+        if d.abs() <= 1024 { Some(d as i64) } else { None }
+    };
+    if x < SMALL_LIMIT as u128 {
         x as i64
-    } else if usize::MAX - x <= 1024 {
-        HUGE_TOP - (usize::MAX - x) as i64
+    } else if let Some(d) = near(usize::MAX as u128) {
+        HUGE_TOP + d
+    } else if let Some(d) = near(1u128 << 63) {
+        HUGE_MID + d
+    } else if let Some(d) = near(1u128 << 32) {
+        HUGE_LOW + d
     } else {
-        HUGE_MID
+        HUGE_MID - 5000
     }
 }
 
@@ -26,11 +37,14 @@ pub fn dec(v: i64) -> usize {
         0
     } else if v < SMALL_LIMIT {
         v as usize
-    } else if v > HUGE_TOP - 2048 && v <= HUGE_TOP {
-        usize::MAX - (HUGE_TOP - v) as usize
+    } else if (v - HUGE_TOP).abs() <= 1024 {
+        (usize::MAX as i128 + (v - HUGE_TOP).min(0) as i128) as usize
+    } else if (v - HUGE_MID).abs() <= 1024 {
+        ((1i128 << 63) + (v - HUGE_MID) as i128) as usize
+    } else if (v - HUGE_LOW).abs() <= 1024 {
+        ((1i128 << 32) + (v - HUGE_LOW) as i128) as usize
     } else {
-        // HUGE_MID + k: 2^63 + k - 4 (so that 2^63-1 .. 2^63+1 are addressable)
-        ((1u128 << 63) as i128 + (v - HUGE_MID) as i128) as usize
+        (1usize << 40) + 12345
     }
 }
 
@@ -169,7 +183,51 @@ fn post(o: &mut String, name: &str, p: &Post) {
     );
 }
 
+fn fnv(h: &mut u64, bytes: &[u8]) {
+    for b in bytes {
+        *h ^= *b as u64;
+        *h = h.wrapping_mul(0x100000001b3);
+    }
+}
+fn fnv_i(h: &mut u64, xs: &[i64]) {
+    fnv(h, &(xs.len() as u64).to_le_bytes());
+    for x in xs {
+        fnv(h, &x.to_le_bytes());
+    }
+}
+
 impl Ev {
+    /// digest of the property-level projection of the event (results, contents, panics, element
+    /// lifecycle callbacks - not addresses, split points, allocation counts or panic messages):
+    /// what must be identical between the default build and the `unstable` build (C18)
+    pub fn digest(&self, h: &mut u64) {
+        fnv(h, self.op.as_bytes());
+        fnv(h, self.acc.as_bytes());
+        fnv_i(h, &[self.h, self.h2, self.v, self.v2, self.i, self.j, self.unw as i64, self.inj as i64, self.bs.1, self.be.1]);
+        fnv(h, self.bs.0.as_bytes());
+        fnv(h, self.be.0.as_bytes());
+        fnv_i(h, &self.ids);
+        fnv_i(h, &self.vals);
+        for c in &self.cbs {
+            fnv(h, c.k.name().as_bytes());
+            fnv_i(h, &[c.id, c.src]);
+        }
+        fnv(h, self.ret.k.as_bytes());
+        fnv_i(h, &self.ret.ids);
+        fnv_i(h, &self.ret.ids2);
+        fnv_i(h, &[self.ret.n, self.ret.b as i64]);
+        fnv(h, self.ret.s.as_bytes());
+        for p in [&self.post, &self.post2] {
+            fnv_i(h, &[p.obs as i64, p.len, p.empty as i64, p.full as i64]);
+            fnv_i(h, &p.seq);
+            fnv_i(h, &p.vals);
+        }
+        for r in &self.rows {
+            fnv(h, r.acc.as_bytes());
+            fnv_i(h, &r.ids);
+        }
+    }
+
     pub fn new(e: &'static str, op: &str) -> Ev {
         Ev {
             e,
